@@ -135,6 +135,18 @@ def make (c):
             if gnd:
                 v [2] = 0.0
             tr.append (['translate', key, v, None])
+    if c ['i'] % 7 == 3 and not gnd and len (alltags) >= 2:
+        # one object moved on its own, then the whole antenna moved (same kind of request, the tagged one first)
+        rt = np.random.default_rng ([c ['seed'], 155, c ['i']])
+        for g in geo:
+            g ['tag'] = tag_of [id (g)]
+        t1 = int (rt.choice (alltags))
+        if rt.random () < 0.5:
+            two = [['rotate', 5.0, [float (np.round (rt.uniform (-180, 180), 2)) for j in range (3)], t1], ['rotate', 8.0, [float (np.round (rt.uniform (-180, 180), 2)) for j in range (3)], None]]
+        else:
+            two = [['translate', 5.0, [float (np.round (x, 3)) for x in rt.uniform (-1, 1, 3) * lam], t1], ['translate', 8.0, [float (np.round (x, 3)) for x in rt.uniform (-1, 1, 3) * lam], None]]
+        # (given in either order on the command line: the keys decide, and the written list has them in key order)
+        tr += two if rt.random () < 0.5 else two [::-1]
     spec ['tr'] = tr
     if rng.random () < 0.3:
         spec ['sc'] = [[float (np.round (10 ** rng.uniform (-0.3, 0.3), 4)), None]]
@@ -549,6 +561,33 @@ def check (c):
     lk = sorted (set (l ['k'] + ('T' if l.get ('tag') else '') for l in spec ['loads']))
     extra = [spec ['style'], 'tr%d' % len (spec.get ('tr') or []), 'sc%d' % len (spec.get ('sc') or [])
             , 'tap%d' % sum (1 for g in spec ['geo'] if g.get ('taper')), 'v1' if any (s ['v'] == [1.0, 0.0] for s in spec ['src']) else '']
+    # ---- a model made with the classes of the library whose tapered wires have a longest segment only: its option
+    # list describes the same wires (the list names minimum and maximum by position)
+    tp = [g for g in spec ['geo'] if g ['k'] == 'w' and g.get ('taper') and g.get ('tag') is not None]
+    if tp and not spec.get ('tr') and not spec.get ('sc'):
+        sa = copy.deepcopy ({k: v for k, v in spec.items () if k in ('f', 'geo', 'media', 'boundary', 'radials')})
+        sa.update (src = [dict (p = [1], v = [1.0, 0.0])], loads = [], tr = [], sc = [])
+        for g in sa ['geo']:
+            if g ['k'] == 'w' and g.get ('taper'):
+                sl = np.linalg.norm (np.array (g ['p1']) - np.array (g ['p2'])) / g ['n']
+                g ['taper'] = [g ['taper'][0], None, float (sl * (1.1 + 0.9 * ((int (sl * 1e6) % 100) / 100.0)))]
+        try:
+            mA = gen.build (sa, route = 'api')
+        except common.Rejected:
+            mA = None
+        if mA is not None:
+            mon ['library-model'] = 1
+            rA = common.run_main (common.guarded (mA.as_cmdline, 'as_cmdline').split (), return_mininec = True)
+            if rA ['kind'] == 'exception':
+                raise common.Repo_Crash (rA ['exc'], 'main(read back, library model)')
+            if rA ['model'] is None:
+                bad ('library-model', 'written-options-rejected', 'option list of a model made with the classes (taper maximum alone) is rejected: %s' % (rA ['out'] + rA ['err']).strip ().split ('\n') [-1] [:140])
+            else:
+                da, db = describe (mA), describe (rA ['model'])
+                for oa, ob in zip (da ['objects'], db ['objects']):
+                    if oa ['nodes'].shape != ob ['nodes'].shape or np.abs (oa ['nodes'] - ob ['nodes']).max () > 1e-9 * size:
+                        bad ('library-model', 'geometry', 'model made with the classes, object %s (taper %r): segment end points of the model read back differ by %.3g of the size' % (oa ['tag'], oa ['taper'], np.abs (oa ['nodes'] - ob ['nodes']).max () / size if oa ['nodes'].shape == ob ['nodes'].shape else np.inf))
+                        break
     sig = gen.signature (spec, m, extra = extra)
     nontrivial = spec ['style'] != 'auto' or bool (spec ['loads']) or bool (spec.get ('tr'))
     return dict (status = 'violation' if viol else 'held', sig = sig, nontrivial = bool (nontrivial), monitors = mon, violations = viol)
